@@ -123,6 +123,12 @@ func (h *hist) genPeers() {
 			p.id = h.peers[rng.Intn(len(h.peers))].id
 		}
 		h.peers = append(h.peers, p)
+		if rng.Intn(7) == 0 {
+			// the same ID from another port of the same IP (a contact that re-bound): a second contact, the first stays what it was
+			sib := p
+			sib.addr = &net.UDPAddr{IP: p.addr.IP, Port: 1024 + (p.addr.Port+1+rng.Intn(50))%60000}
+			h.peers = append(h.peers, sib)
+		}
 		if ip4 := p.addr.IP.To4(); ip4 != nil && rng.Intn(6) == 0 {
 			// the same contact with its IPv4 address in the other byte form (4 vs 16 bytes): one node, not two
 			twin := p
@@ -178,7 +184,7 @@ func (h *hist) emit(kind string, s sender, ro, matched, drop bool, extra sim.M) 
 	st := h.srv.Stats()
 	m := sim.M{"seg": h.seg, "e": kind, "s": s, "ro": ro, "matched": matched, "drop": drop, "snap": sl,
 		"numNodes": h.srv.NumNodes(), "statsNodes": st.Nodes, "goodNodes": st.GoodNodes, "nodes": nodes,
-		"addrIndex": h.srv.VerifAddrIndexSize()}
+		"addrIndex": h.srv.VerifAddrIndexSize(), "addrIndexBad": h.srv.VerifAddrIndexMismatch()}
 	for k, v := range extra {
 		m[k] = v
 	}
@@ -276,7 +282,7 @@ func (h *hist) evQuery() {
 		target = h.ihs[rng.Intn(len(h.ihs))] // a swarm this node may hold peers for
 	}
 	var want []string
-	switch rng.Intn(6) {
+	switch rng.Intn(8) {
 	case 0:
 		want = []string{"n4"}
 	case 1:
@@ -285,6 +291,10 @@ func (h *hist) evQuery() {
 		want = []string{"n4", "n6"}
 	case 3:
 		want = []string{"n9"}
+	case 4:
+		want = []string{"n4", "n4"} // a family named twice is still one list of at most K distinct contacts
+	case 5:
+		want = []string{"n6", "n4", "n9", "n6"}
 	}
 	if method != "ping" {
 		if method == "get_peers" {
